@@ -60,6 +60,9 @@ func c10Args(mode, hashKind int) string {
 	if hashKind == 1 {
 		h = "{'w': 'ww'}"
 	}
+	if hashKind == 2 {
+		h = "hv" // the same hash, held in a host variable (set by the host or supplied as a Go map)
+	}
 	switch mode {
 	case 1:
 		return " with " + h
@@ -77,7 +80,7 @@ func c10TargetVars(site c10Vars, mode, hashKind int) c10Vars {
 		v = site.copy()
 	}
 	if mode == 1 || mode == 3 {
-		if hashKind == 0 {
+		if hashKind == 0 || hashKind == 2 {
 			v["x"] = "wx"
 		}
 		v["w"] = "ww"
@@ -162,14 +165,14 @@ func c10Stmt(k, mode, hashKind int, site c10Vars) (src, out string) {
 	}
 }
 
-const c10After = "|after x={{ x }}|{{ probe('x') }} fresh={{ probe('fresh') }}"
+const c10After = "|after x={{ x }}|{{ probe('x') }} fresh={{ probe('fresh') }} hv={{ hv.x }},{{ hv.w }},{{ hv.fresh }},{{ hv.y }}"
 
 func c10AfterExp(site c10Vars) string {
 	p := "U"
 	if _, ok := site["x"]; ok {
 		p = "D"
 	}
-	return "|after x=" + site.get("x") + "|" + p + " fresh=U"
+	return "|after x=" + site.get("x") + "|" + p + " fresh=U hv=wx,ww,,"
 }
 
 // hosts: 0 top, x unset; 1 top, x set; 2 loop with loop variable x; 3 loop with loop variable q, x set before;
@@ -179,7 +182,8 @@ func c10Build(host, k, mode, hashKind int) (tpls map[string]string, ctx map[stri
 	for n, s := range c10Tpls {
 		tpls[n] = s
 	}
-	ctx = map[string]stick.Value{"y": "cy"}
+	hv := map[string]stick.Value{"x": "wx", "w": "ww"}
+	ctx = map[string]stick.Value{"y": "cy", "hv": hv}
 	base := c10Vars{"y": "cy"}
 	switch host {
 	case 0, 1:
@@ -221,7 +225,7 @@ func c10Build(host, k, mode, hashKind int) (tpls map[string]string, ctx map[stri
 		tpls["main"] = "{% extends 'hostbase' %}{% block a %}" + pre + "[" + s + "]" + c10After + "{% endblock %}{% block b %}hostb{% endblock %}"
 		want = "HB([" + o + "]" + c10AfterExp(site) + "/hostb)"
 	case 6:
-		ctx = map[string]stick.Value{}
+		ctx = map[string]stick.Value{"hv": hv}
 		site := c10Vars{"x": "mx"}
 		s, o := c10Stmt(k, mode, hashKind, site)
 		tpls["main"] = "{% macro m(x) %}[" + s + "]" + c10After + "{% endmacro %}{{ _self.m('mx') }}"
@@ -263,12 +267,12 @@ func c10Run(c core.Case) core.Result {
 
 func c10Levels(tier string) []core.Level {
 	return []core.Level{
-		{Name: "full product: 7 call sites / host states x 16 include/embed statements x {plain, with, only, with only} x 2 with-hashes", Gen: func(emit func(core.Case)) {
+		{Name: "full product: 7 call sites / host states x 16 include/embed statements x {plain, with, only, with only} x 3 with-hashes (two literals and a host variable holding a Go map, which must be unchanged afterwards)", Gen: func(emit func(core.Case)) {
 			for host := 0; host < c10Hosts; host++ {
 				for k := 0; k < c10Stmts; k++ {
 					for mode := 0; mode < 4; mode++ {
-						for hk := 0; hk < 2; hk++ {
-							if (mode == 0 || mode == 2) && hk == 1 {
+						for hk := 0; hk < 3; hk++ {
+							if (mode == 0 || mode == 2) && hk >= 1 {
 								continue
 							}
 							emit(core.Case{Fam: "cfg", N: []int{host, k, mode, hk}})
@@ -284,7 +288,7 @@ func init() {
 	core.Register(&core.Check{
 		ID:       "C10",
 		Category: "exploration",
-		Rule: "full product of: call site / host state (top level with x unset or set; loop body with the loop variable named x or another name; block body of an extending child whose blocks are named like the target's, x set or unset; macro body with parameter x) x statement (include of 5 targets: printing x,y,w with definedness, setting x, setting a fresh name, extending a base, defining blocks named like the host's; embed of 3 targets with overrides {}, {a}, {a,b}; the same target embedded twice with different overrides; embed followed by include) x {plain, with, only, with only} x 2 with-hashes; the host prints x and the definedness of the fresh name afterwards. " +
+		Rule: "full product of: call site / host state (top level with x unset or set; loop body with the loop variable named x or another name; block body of an extending child whose blocks are named like the target's, x set or unset; macro body with parameter x) x statement (include of 5 targets: printing x,y,w with definedness, setting x, setting a fresh name, extending a base, defining blocks named like the host's; embed of 3 targets with overrides {}, {a}, {a,b}; the same target embedded twice with different overrides; embed followed by include) x {plain, with, only, with only} x 3 with-hashes (two literals and a host variable holding a Go map, which must be unchanged afterwards); the host prints x and the definedness of the fresh name afterwards. " +
 			"Reference: visible variables = call-site variables plus with-hash, or with-hash only; no write-back; overrides per embed only; host blocks irrelevant. distinct = distinct configuration; non-trivial = all",
 		Assumptions: []string{"inside a macro body only the parameter is at the call site (stick's macro scope also exposes outer variables; not claimed)"},
 		Levels:      c10Levels,
